@@ -61,6 +61,7 @@ BadOffsets == { <<43, 49>>, <<49, 50, 48, 48, 48>>, <<43, 49, 50, 58, 48, 48>>, 
 From(d, t, p, hasP, tz, hasTz) == [mode |-> "date", flags |-> [fn |-> "from", day |-> d, msod |-> t] @@ (IF hasP THEN [pic |-> p] ELSE <<>>) @@ (IF hasTz THEN [tz |-> tz] ELSE <<>>)]
 Rt(d, t, p, hasP, tz) == [mode |-> "date", flags |-> [fn |-> "rt", day |-> d, msod |-> t, tz |-> tz] @@ (IF hasP THEN [pic |-> p] ELSE <<>>)]
 To(s) == [mode |-> "date", flags |-> [fn |-> "to", s |-> s]]
+ToP(s, p) == [mode |-> "date", flags |-> [fn |-> "to", s |-> s, pic |-> p]]
 
 IsoText(d, t) == LET cv == Civil(d) IN
     PadInt(cv.y, 4) \o <<45>> \o PadInt(cv.m, 2) \o <<45>> \o PadInt(cv.d, 2) \o <<84>> \o PadInt(t \div 3600000, 2) \o <<58>> \o PadInt((t \div 60000) % 60, 2) \o <<58>> \o PadInt((t \div 1000) % 60, 2) \o <<46>> \o PadInt(t % 1000, 3)
@@ -76,6 +77,11 @@ Init == /\ \/ \E mk \in Markers, d \in EdgeDays, t \in SmallTimes, o \in {0, 0 -
            \/ \E z \in BadOffsets : c = From(0, 0, <<>>, FALSE, z, TRUE)
            \/ \E d \in EdgeDays, t \in EdgeTimes, sfx \in {<<90>>, <<43, 48, 49, 58, 48, 48>>, <<45, 48, 53, 51, 48>>, <<>>} : c = To(IsoText(d, t) \o sfx)
            \/ \E d \in EdgeDays : c = To(SubSeq(IsoText(d, 0), 1, 10)) \/ c = To(SubSeq(IsoText(d, 0), 1, 4))
+           \* with a picture: malformed pictures and texts that cannot match it (ISO-shaped texts against other pictures)
+           \/ \E p \in BadPictures, t \in {IsoText(D(2017, 10, 30), 59132935) \o <<90>>, <<50, 48, 49, 56>>, <<50, 48, 49, 56, 45, 48, 52, 45, 48, 51>>} : c = ToP(t, p)
+           \/ \E t \in {IsoText(D(2017, 10, 30), 59132935) \o <<90>>, <<50, 48, 49, 56, 45, 48, 52, 45, 48, 51>>, <<50, 48, 49, 56>>},
+                 p \in { <<91, 68, 48, 49, 93, 47, 91, 77, 48, 49, 93, 47, 91, 89, 48, 48, 48, 49, 93>>, <<91, 89, 48, 48, 48, 49, 93, 95, 91, 77, 48, 49, 93>>, <<91, 72, 48, 49, 93, 104, 91, 109, 48, 49, 93>>,
+                          <<91, 89, 48, 48, 48, 49, 93, 45, 91, 77, 48, 49, 93, 45, 91, 68, 48, 49, 93>> } : c = ToP(t, p)
            \* the same calls after another call with a picture of its own was made in the process
            \/ \E d \in {D(2018, 4, 3), D(2000, 2, 29), D(1999, 12, 31)}, t \in {0, 45296789}, sfx \in {<<90>>, <<43, 48, 49, 58, 48, 48>>, <<45, 48, 53, 51, 48>>, <<>>},
                  w \in { \* $toMillis("2018-03-04", "[Y0001]-[D01]-[M01]")   $fromMillis(0, "[D]/[M]/[Y]")   $toMillis("04/03/2018", "[D01]/[M01]/[Y0001]")
